@@ -14,7 +14,8 @@ Section Monitors.
 
   (* ---------------------------------------------------------------- what the observer records *)
   Record crec := { k_body : N; k_tid : N; k_sampled : bool; k_created : N; k_rel : N }.
-  Record sentrec := { s_id : N; s_deadline : N; s_tc : tctx; s_body : N; s_ok : bool; s_seq : nat }.
+  Record sentrec := { s_id : N; s_deadline : N; s_tc : tctx; s_body : N; s_ok : bool; s_seq : nat;
+                      s_time : N (* clock when it was written *) }.
 
   Record mst := {
     m_now : N;
@@ -51,7 +52,7 @@ Section Monitors.
       {| m_now := m_now m; m_seq := seq; m_calls := m_calls m;
          m_sent := m_sent m ++ [{| s_id := id; s_deadline := dl; s_tc := tc; s_body := body;
                                    s_ok := match r with SOk => true | SErr => false end;
-                                   s_seq := seq |}];
+                                   s_seq := seq; s_time := m_now m |}];
          m_cancels := m_cancels m; m_read := m_read m; m_done := m_done m;
          m_abandoned := m_abandoned m; m_closing := m_closing m; m_polled := m_polled m;
          m_first_err := m_first_err m; m_close_called := m_close_called m; m_disp := m_disp m;
@@ -205,8 +206,11 @@ Section Monitors.
   Definition cancelled (m : mst) (id : N) : bool := existsb (fun p => fst p =? id) (m_cancels m).
 
   (* the request of a sent record has ended from the dispatcher's point of view *)
+  (* ... its write failed, a response for it was read, its deadline passed, or the longest
+     timer the client ever arms (MAX_TIMEOUT after transmission) has run out *)
   Definition ended (m : mst) (s : sentrec) : bool :=
-    negb (s_ok s) || read_any_after m (s_id s) (s_seq s) || (s_deadline s <=? m_now m).
+    negb (s_ok s) || read_any_after m (s_id s) (s_seq s) || (s_deadline s <=? m_now m)
+    || (s_time s + max_timeout_ms <=? m_now m).
 
   (* a dispatch poll during which the sink never said Pending or Err and nothing failed *)
   Definition clean_log (l : call_log) : bool :=
